@@ -271,6 +271,15 @@ fn main(args: Args) {
     initialize_logger(&args, &temp_path).expect("Failed to initialize logger");
     register_panic_logger();
 
+    // Headless script driver for the interactive session (verification hooks only).
+    #[cfg(feature = "verif-hooks")]
+    {
+        if let Ok(script) = std::env::var("EMU2A_VERIF_SCRIPT") {
+            tui::verif::run_script(&script);
+            return;
+        }
+    }
+
     // Match against the given subcommand and execute the part
     // of the program that is requested.
     let result: Result<(), Error> = match args.subcommand {
